@@ -83,7 +83,9 @@ def check (g : Geo) (m : Mon) : Ev → Mon × List Verdict
     (m, (if al = m.length then [] else [("count", s!"reported allocated={al}, true={m.length}")]) ++
         (if tot = g.totalReported then [] else [("total", s!"reported total={tot}, true={g.totalReported}")]))
   | .listing l =>
-    (m, if l = sorted m then [] else [("agree", "listing disagrees with what was handed out")])
+    -- `l` comes out of a map (distinct subscribers): equal as sets iff same size and every entry agrees
+    (m, if l.length = m.length ∧ l.all (fun p => m.lookup p.1 == some p.2) then []
+        else [("agree", "listing disagrees with what was handed out")])
   | .nop => (m, [])
 
 end Bng.PoolSpec
